@@ -4,18 +4,15 @@ CONSTANTS
   Seeds <- MCSeeds
   Ops <- MCOps
   Scalars <- MCScalars
-  FillPos = {3}
-  FillW = {1}
+  FillPos = {3, 7}
+  FillW = {1, 2}
   SetDtypes = {"f8"}
   SliceArgs <- MCSliceArgs
   MergeArgs = {2}
-  MaxDepth = 3
-  MaxVal = 64
+  MaxDepth = 4
+  MaxVal = 200
 CHECK_DEADLOCK FALSE
-INVARIANT MulDivIdentity
-INVARIANT NormalTotal
+INVARIANT SumIsUnion
 INVARIANT MomentsScaleInvariant
 INVARIANT WellFormed
-INVARIANT IntHoldsInts
 PROPERTY Independence
-PROPERTY RefusalIsNoOp
